@@ -131,15 +131,20 @@ impl Cli {
     }
 
     fn run(&mut self, cfg: Cfg, src: &str) -> RunOut {
+        self.run_bytes(cfg, src.as_bytes()).0
+    }
+
+    /// … on any bytes; the flag says whether the tool stopped with the I/O error of an invalid UTF-8 line
+    fn run_bytes(&mut self, cfg: Cfg, src: &[u8]) -> (RunOut, bool) {
         self.n += 1;
         let sp = self.dir.join(format!("s{}.src", self.n));
         let op = self.dir.join(format!("o{}.{}", self.n, if cfg.sqlite { "sqlite3" } else { "dat" }));
         std::fs::write(&sp, src).unwrap();
-        let (exit, reported, _) = self.init(cfg, &sp, &op);
+        let (exit, reported, err) = self.init(cfg, &sp, &op);
         let exists = op.exists();
         let (dump, dump_csv) = if exists { (self.dump(&op, false), self.dump(&op, true)) } else { (None, None) };
         let _ = std::fs::remove_file(&sp);
-        RunOut { exit, reported, exists, dump, dump_csv, path: op }
+        (RunOut { exit, reported, exists, dump, dump_csv, path: op }, err.contains("stream did not contain valid UTF-8"))
     }
 }
 
@@ -879,6 +884,54 @@ fn check_source(
     let _ = std::fs::remove_file(&r.path);
 }
 
+/// a source given as bytes: correspondence record (`runraw`, byte-level model) and the oracle for lines that are not
+/// valid UTF-8 — such a line is malformed, so it must be reported with its number, block the build without
+/// `--skip-invalid` and be skipped with it (finding F45 `invalid-utf8`: the tool stops with an I/O error instead)
+fn check_raw(cli: &mut Cli, out: &mut Out, st: &mut Stats, cfg: Cfg, bytes: &[u8]) {
+    let (r, io) = cli.run_bytes(cfg, bytes);
+    st.runs += 1;
+    out.rec(&format!(
+        "cli runraw {} {} => {} {} {} {} {} {}",
+        cfg.txt(),
+        hbytes(bytes),
+        r.exit,
+        commas(&r.reported),
+        r.exists as u8,
+        hxo(&r.dump),
+        hxo(&r.dump_csv),
+        if io { "io" } else { "ok" }
+    ));
+    let _ = std::fs::remove_file(&r.path);
+    let mut chunks: Vec<&[u8]> = bytes.split(|b| *b == b'\n').collect();
+    if chunks.last().map(|c| c.is_empty()).unwrap_or(false) {
+        chunks.pop();
+    }
+    let first = if cfg.csv { 1 } else { 0 };
+    let invalid: Vec<usize> =
+        chunks.iter().enumerate().skip(first).filter(|(_, c)| std::str::from_utf8(c).is_err()).map(|(i, _)| i).collect();
+    let id = format!("cfg={} src={}", cfg.txt().replace(' ', "/"), hbytes(bytes));
+    if invalid.is_empty() {
+        if io {
+            out.oracle_fail("C20", "new", &format!("I/O_error_on_a_source_whose_lines_are_all_valid_UTF-8 {}", id));
+        }
+        return; // everything else about such a source is checked on the text level
+    }
+    *st.defects.entry("invalid-utf8.sources".into()).or_insert(0) += 1;
+    // exactly the known behaviour: the run stops with the I/O error, exit status 1, nothing reported, nothing built
+    let class = if io && r.exit == 1 && !r.exists && r.reported.is_empty() { "invalid-utf8" } else { "new" };
+    for i in &invalid {
+        if !r.reported.contains(&(i + 1)) {
+            out.oracle_fail("C20", class, &format!("line_{}_(not_valid_UTF-8)_is_not_reported_with_its_number {}", i + 1, id));
+        }
+    }
+    if cfg.skip && !r.exists {
+        out.oracle_fail("C20", class, &format!("--skip-invalid_given_but_no_output_file_is_produced_(line_{}_is_not_valid_UTF-8) {}", invalid[0] + 1, id));
+    }
+    if !cfg.skip && (r.exit == 0 || r.exists) {
+        out.oracle_fail("C20", "new", &format!("a_line_is_not_valid_UTF-8_but_exit_status_{}_/_output_exists_{} {}", r.exit, r.exists, id));
+    }
+}
+
 /// `info` reports the metadata given to `init-database`, for both back ends, in both output formats
 /// (oracle only: the dictionary compiled from a dump with the same flags is described identically)
 fn check_info(cli: &mut Cli, out: &mut Out, sqlite: bool) {
@@ -1029,6 +1082,27 @@ fn main() {
         }
     }
 
+    // sources that are not valid UTF-8 (byte-level model `runraw`; oracle: finding F45), and valid ones through the same path
+    let raw_bytes: Vec<(bool, &[u8])> = vec![
+        (false, &b"\xe6\xb8\xac 5 \xe3\x84\x98\xe3\x84\x9c\xcb\x8b\n\xff\xfe 5 \xe3\x84\x98\xe3\x84\x9c\xcb\x8b\n\xe7\xad\x96 1 \xe3\x84\x98\xe3\x84\x9c\xcb\x8b\n"[..]),
+        (false, &b"\xe6\xb8\xac 5 \xe3\x84\x98\xe3\x84\x9c\xcb\x8b\nabc x\n\xe6\xb8 7 \xe3\x84\x98\n"[..]), // a rejected line before the invalid one: not printed either
+        (false, &b"\xe6\xb8\xac 5 \xe3\x84\x98\xe3\x84\x9c\xcb\x8b\n\xc0\xaf 5 \xe3\x84\x98\xe3\x84\x9c\xcb\x8b"[..]),          // overlong form, no final newline
+        (false, &b"\xed\xa0\x80 5 \xe3\x84\x98\xe3\x84\x9c\xcb\x8b\r\n"[..]),                                              // surrogate, CRLF
+        (false, &b"\xf4\x90\x80\x80 5 \xe3\x84\x98\xe3\x84\x9c\xcb\x8b\n"[..]),                                            // above U+10FFFF
+        (false, &b"\xf4\x8f\xbf\xbf\xf0\x90\x80\x80 5 \xe3\x84\x98\xe3\x84\x9c\xcb\x8b \xe3\x84\x98\xe3\x84\x9c\xcb\x8b\n\xed\x9f\xbf\xee\x80\x80\xe0\xa0\x80 4 \xe3\x84\x98\xe3\x84\x9c\xcb\x8b\r\n"[..]), // valid corner cases
+        (false, &b"\xe6\xb8\xac 5 \xe3\x84\x98\xe3\x84\x9c\xcb\x8b\n\xe6\xb8"[..]),                                          // truncated sequence at the end of the file
+        (false, &b"\x80\n"[..]),
+        (false, &b"\xe0\x9f\xbf 1 \xe3\x84\x98\n\xf0\x8f\xbf\xbf 1 \xe3\x84\x98\n"[..]),
+        (true, &b"\xff\xfe\n\xe6\xb8\xac\xe8\xa9\xa6,5,\xe3\x84\x98\xe3\x84\x9c\xcb\x8b \xe3\x84\x95\xcb\x8b\n"[..]),               // invalid CSV header: skipped unread
+        (true, &b"h\n\xe6\xb8\xac\xe8\xa9\xa6,5,\xe3\x84\x98\xe3\x84\x9c\xcb\x8b \xe3\x84\x95\xcb\x8b\n\xe6\xb8\xac\xff,5,\xe3\x84\x98\xe3\x84\x9c\xcb\x8b\n"[..]),
+        (true, &b"\xff"[..]),
+    ];
+    for (csv, bytes) in &raw_bytes {
+        for cfg in all_cfgs(*csv) {
+            check_raw(&mut cli, &mut out, &mut st, cfg, bytes);
+        }
+    }
+
     // generated well-formed sources, all eight configurations each
     let n_sources = if thorough { 150 } else { 12 };
     let mut bases: Vec<(bool, Vec<(String, Rec)>)> = vec![];
@@ -1076,6 +1150,32 @@ fn main() {
                 continue;
             }
             let (text, r) = &ls[li];
+            // the line made invalid UTF-8 (a stray continuation byte / a truncated sequence), through the byte-level path
+            {
+                let mut bytes: Vec<u8> = vec![];
+                if *csv {
+                    bytes.extend_from_slice(header.as_bytes());
+                    bytes.push(b'\n');
+                }
+                for (j, (l, _)) in ls.iter().enumerate() {
+                    if j == li {
+                        let cut = *g.rng.pick(&[0usize, 1, 2]);
+                        let b = l.as_bytes();
+                        bytes.extend_from_slice(&b[..b.len().min(cut)]);
+                        bytes.push(*g.rng.pick(&[0x80u8, 0xff, 0xc0, 0xe6]));
+                        bytes.extend_from_slice(&b[b.len().min(cut)..]);
+                    } else {
+                        bytes.extend_from_slice(l.as_bytes());
+                    }
+                    bytes.push(b'\n');
+                }
+                *st.by_kind.entry("invalid-utf8").or_insert(0) += 1;
+                let sqlite = sqlite_ok && g.rng.chance(1, 2);
+                let keep = g.rng.chance(1, 2);
+                for skip in [false, true] {
+                    check_raw(&mut cli, &mut out, &mut st, Cfg { sqlite, csv: *csv, keep, skip }, &bytes);
+                }
+            }
             let cs = corruptions(text, r, *csv, &mut g.rng);
             for (kind, bad) in cs {
                 if !exhaustive && !g.rng.chance(1, 3) {
